@@ -53,7 +53,14 @@ def float_to_fixed_obs(x, d):
 
 
 def chars(s):
-    return list(s)
+    """text -> list of one-byte characters (the specification is byte level: a non-ASCII character is the
+    sequence of its UTF-8 bytes)"""
+    return [c if ord(c) < 128 else 'b%d' % ord(c) for c in s.encode('utf-8').decode('latin1')]
+
+
+def text_of(cs):
+    """inverse of chars() for values handed to the library"""
+    return ''.join(chr(int(c[1:])) if len(c) > 1 and c[0] == 'b' and c[1:].isdigit() else c for c in cs).encode('latin1').decode('utf-8')
 
 
 # --------------------------------------------------------------------------- real execution
@@ -161,10 +168,13 @@ def _subst_default(data, default):
     """bytes -> list of chars with the library's default title replaced by the pseudo char."""
     text = data.decode('latin1')
     shift = 0
+
+    def cs(t):
+        return [c if ord(c) < 128 else 'b%d' % ord(c) for c in t]
     if text.startswith(default + '\n') or text == default:
         shift = len(default) - 1
-        return [DEFAULT_CH] + list(text[len(default):]), shift
-    return list(text), shift
+        return [DEFAULT_CH] + cs(text[len(default):]), shift
+    return cs(text), shift
 
 
 def _truncation_sweep(data, workdir, full_recs_obs):
@@ -214,7 +224,7 @@ def run_history(hist, workdir, tid, trunc):
             out = 'ok'
             try:
                 if name == 'title':
-                    g.comment = ''.join(op['v'])
+                    g.comment = text_of(op['v'])
                 elif name == 'natoms':
                     g.natoms = op['v']
                 elif name == 'format':
@@ -365,9 +375,9 @@ def random_file_trace(seed, tid, workdir, max_recs, trunc=True):
     hv = rng.random() < 0.5
     declared = rng.random() < 0.5
     alphabet = 'ABCDEFGHIJKLMNOPQRSTUVWXYZabcdefghijklmnopqrstuvwxyz0123456789*\'+-_#'
-    title_kind = rng.choice(['unset', 'text', 'textnl', 'blank', 'long'])
+    title_kind = rng.choice(['unset', 'text', 'textnl', 'blank', 'long', 'unicode'])
     title = {'unset': None, 'text': 'Protein in water t= 0.0', 'textnl': 'Generated, 12 atoms\n',
-             'blank': '', 'long': 'x' * 120}[title_kind]
+             'blank': '', 'long': 'x' * 120, 'unicode': 'Prot\u00e9ine \u00e0 300 K \u2013 1 \u00b5s'}[title_kind]
     box_kind = rng.choice(['unset', 'vec', 'diag', 'tric'])
 
     def coord(maxint_digits, dec):
